@@ -1,0 +1,33 @@
+//go:build verif
+
+package table
+
+import "github.com/lni/dragonboat/v4"
+
+// Exports for the verification harness in /verif (build tag "verif"); no behaviour.
+
+const (
+	VerifKeyPrefix          = keyPrefix
+	VerifSequenceKey        = sequenceKey
+	VerifTableIDsRangeStart = tableIDsRangeStart
+	VerifMaxTableNameLen    = maxTableNameLen
+)
+
+// VerifStore is the store interface the Manager is built on.
+type VerifStore = store
+
+// VerifCreateTable is CreateTable without starting the shard (which needs a NodeHost).
+func (m *Manager) VerifCreateTable(name string) (Table, error) {
+	m.mtx.Lock()
+	defer m.mtx.Unlock()
+	return m.createTable(name)
+}
+
+// VerifIncAndGetIDSeq hands out the next id of the sequence, as Restore does for the recover id.
+func (m *Manager) VerifIncAndGetIDSeq() (uint64, error) { return m.incAndGetIDSeq() }
+
+func VerifDiffTables(tables map[string]Table, raftInfo []dragonboat.ShardInfo) (map[uint64]Table, []uint64) {
+	return diffTables(tables, raftInfo)
+}
+
+func VerifValidTableName(name string) bool { return validTableName(name) }
